@@ -54,42 +54,63 @@ class C20(Check):
     harness_sources = ['harness/args.cpp']
     per_case_timeout = 20
     level_text = ('18 Coq theorems (no axioms) about an executable model of Process.cpp (POSIX paths) that mirrors the code decision '
-                  'by decision with every string access going through a bounds-checked peek/advance. (A) Process::Arguments: for EVERY '
-                  'option table and EVERY argument vector of C strings, iterating read() yields exactly the item sequence of an '
-                  'independently written getopt_long reference (clusters, attached/detached/optional values, long options with = or '
-                  'separate value, --, lone -, unknown ?, missing :) - proved as a refinement: each read() on a reachable cursor performs '
-                  'one reference step, stays inside [string, terminator], strictly decreases the count of unread characters, and false is '
-                  'final; so the loop ends within weight+1 calls. (B) splitCommandLine equals the reference word splitter on every C '
-                  'string, terminates with fuel length+1 and in bounds on EVERY byte string (covers the loop that used to hang), and '
-                  'split(quote words) = words for all words not ending in a backslash. (C) the argv/env arrays handed to execvpe by '
-                  'each start/open overload are exactly executable + argument vector + environment given. The model is tied to the code '
-                  'by running the extracted model, the extracted reference and the ASan/UBSan build of the working tree on the same '
-                  'inputs (results and the cursor fields idx/pos/inOpt/skipOpt compared), exhaustively over small alphabets.')
+                  'by decision with every forward string access going through a bounds-checked peek/advance and every backward one '
+                  '(argument.attach(arg - 2, ..), attach(argName - 2, ..), attach(arg - 1, 1)) through attach_back, which answers out-of-'
+                  'bounds unless the pointer stays at or behind the start of the string and the bytes handed out end at or before the '
+                  'terminator. (A) Process::Arguments: for EVERY option table and EVERY argument vector of C strings, iterating read() '
+                  'yields exactly the item sequence of an independently written getopt_long reference (clusters, attached/detached/'
+                  'optional values, long options with = or separate value, --, lone -, unknown ?, missing :) - proved as a refinement: '
+                  'each read() on a reachable cursor performs one reference step, stays inside [string, terminator], strictly '
+                  'decreases the count of unread characters, and false is final; so the loop ends within weight+1 calls. (B) '
+                  'splitCommandLine equals the reference word splitter on every C string, terminates with fuel length+1 and in bounds '
+                  'on EVERY byte string (covers the loop that used to hang), and split(quote words) = words for all words not ending '
+                  'in a backslash. (C) the argv/env arrays handed to execvpe by each start/open overload are exactly executable + '
+                  'argument vector + environment given, where element 0 of a vector without its own terminating null pointer is the '
+                  'program-name slot and is filled with the executable. The model is tied to the code by running the extracted model, '
+                  'the extracted reference and the ASan/UBSan build of the working tree on the same inputs (results and the cursor '
+                  'fields idx/pos/inOpt/skipOpt compared, also for two more read() calls after the first false and for argc == 0), '
+                  'exhaustively over small alphabets.')
     level_note = ('partial: exec itself, pipes, join()/exit status, end-of-file on redirected output, stdin bytes arriving intact and the '
                   'environment as seen by the child are OS behaviour - validated by correspondence only (a helper child echoes argv/environ, '
                   'copies stdin to stdout/stderr and exits with a scripted code; 8 redirection combinations x 4 launch forms, payloads '
-                  '0..64 KiB+1 (1 MiB in thorough) around the pipe capacity, exit codes 0..255; expected exit code and stream contents '
-                  'are computed by the driver, not in Coq). kill(), the environment setters/getters and daemonize are not modelled. '
-                  'Theorems are about the model; the tie to the code is differential. Hypotheses of the theorems: argument strings are '
-                  'bytes 1..255 and option names contain no NUL (what a C string is); the round trip excludes words ending in a backslash '
-                  '(the reference quoting would escape its own closing quote - shown by an Example). The model mirrors the code after the '
-                  'repairs in fixes/C20 (all committed to the repository). Map iteration order is taken as given (C01). '
-                  'splitCommandLine is a file-local function: the harness compiles Process.cpp into its own translation unit to call it '
-                  'directly, and also drives it through open/start(commandLine). Trusted: Coq kernel, the getopt/word-splitting reference '
-                  '(ArgsSpec.v, cross-checked against glibc getopt_long as a search oracle, not as a theorem), extraction + OCaml driver, '
-                  'harness, helper child.')
+                  '0..64 KiB+1 (1 MiB in thorough) around the pipe capacity, exit codes 0..255; launch profiles: a second start()/open() '
+                  'through each of the four overloads on a running Process is refused with EINVAL; descriptor 0 of the parent closed '
+                  'while the process is opened; an executable that does not exist (message on the child\'s stderr, EXIT_FAILURE); every '
+                  'launch runs under its own watchdog (4 s + 4 s/MiB) that kills the child and reports `! timeout`; expected exit code, '
+                  'stream contents and error codes are computed by the driver, not in Coq). kill(), the environment setters/getters and '
+                  'daemonize are not modelled. Theorems are about the model; the tie to the code is differential. The contents of the '
+                  'bytes behind the cursor that attach_back hands out are rebuilt from the bytes read on the way (only the bounds of the '
+                  'backward access are an obligation). Contract taken from the code, not from the header (Process.hpp says only '
+                  '"argv: Arguments to the process"): start/open(executable, argc, argv) follow the main()/exec convention - argv[0] '
+                  'is the slot of the program name: it is overwritten with `executable` (POSIX: args[0] = executable; Windows: '
+                  'getCommandLine starts at argv[1]), the library\'s own command-line overloads pass the first word there, and a vector '
+                  'that ends in a null pointer counted in argc is handed over unchanged; open(executable, List) inherits this, so the '
+                  'first list element is not seen by the child. Not treated as a defect; callers that put the first real argument into '
+                  'element 0 lose it. Hypotheses of the theorems: argument strings are bytes 1..255 and option names contain no NUL '
+                  '(what a C string is); the round trip excludes words ending in a backslash (the reference quoting would escape its own '
+                  'closing quote - shown by an Example). The word-splitting reference follows the code on inputs outside the property\'s '
+                  'class "words separated by single spaces": a leading or doubled space yields an empty word, an unterminated quote is '
+                  'accepted. The model mirrors the code after the repairs in fixes/C20. Map iteration order is taken as given (C01): the '
+                  'driver sorts the environment by key before handing it to model and reference. splitCommandLine is a file-local '
+                  'function: the harness compiles Process.cpp into its own translation unit to call it directly, and also drives it '
+                  'through open/start(commandLine). Trusted: Coq kernel, the getopt/word-splitting reference (ArgsSpec.v; searched for '
+                  'disagreements with glibc getopt_long on the vectors that do not abbreviate a long option name - glibc accepts unique '
+                  'prefixes, the reference and the code accept exact names only - as a search oracle, not as a theorem), extraction + '
+                  'OCaml driver, harness, helper child.')
     technique = 'Coq proof about an executable model + differential correspondence (extracted model/spec vs ASan/UBSan build)'
-    rule = ('cases = (option table, argument vector) parsed to the end, one command line split, or one child launch; argument '
-            'vectors are exhaustive over {- a b c = x} (quick: 1 string of length <= 4, 2 of length <= 2, 3 from a token set; '
-            'thorough: 1 of length <= 5, 2 of length <= 3, 3 of length <= 2) plus random tables/vectors; command lines exhaustive '
-            'over {a SP " \\} up to length 6 (quick) / 8 (thorough) plus random longer ones; launches cover the 8 redirection '
-            'combinations x {cmd, argv, argv0, list} forms x payloads around 4 KiB / 64 KiB +-1 / 1 MiB x exit codes 0..255 '
-            '(sampled in quick). A parse case is non-trivial when the implementation reported at least one option, error or '
-            'two items; a split case when it produced >= 2 words or the line contains a quote; every launch is non-trivial. '
-            'distinct = distinct op text')
+    rule = ('cases = (option table, argument vector) parsed to the end and twice beyond (also with argc == 0), one command line split, '
+            'or one child launch; argument vectors are exhaustive over {- a b c = x} (quick: 1 string of length <= 4, 2 of length <= 2, '
+            '3 from a token set; thorough: 1 of length <= 5, 2 of length <= 3, 3 of length <= 2) plus random tables/vectors; command '
+            'lines exhaustive over {a SP " \\} up to length 6 (quick) / 8 (thorough) plus random longer ones; launches cover the 8 '
+            'redirection combinations x {cmd, argv, argv0, list} forms x payloads around 4 KiB / 64 KiB +-1 / 1 MiB x exit codes 0..255 '
+            '(sampled in quick) x environments (also given out of key order) and the profiles again / fd0 / noexec. A parse case is '
+            'non-trivial when the implementation reported at least one option, error or two items; a split case when it produced >= 2 '
+            'words or the line contains a quote; every launch is non-trivial. distinct = distinct op text')
     assumptions = ['argument and option-name strings are C strings (no NUL inside, bytes 1..255); char is signed (x86-64 Linux)',
                    'getopt conventions as transcribed in coq/Args/ArgsSpec.v: exact long names (no abbreviations), items reported in '
                    'order of appearance, a value attached to a long flag option is an error',
+                   'start/open(executable, argc, argv): argv[0] is the program-name slot (main()/exec convention) and is replaced by '
+                   'the executable unless the vector carries its own terminating null pointer; open(executable, List) likewise',
                    'Map<String,String> enumerates in key order (property C01); OS behaviour of vfork/execvpe/pipe/waitpid is not modelled']
 
     # ---- build: also the helper child --------------------------------------------------------
@@ -114,7 +135,7 @@ class C20(Check):
 
     def run_impl(self, cases, tag='impl'):
         wd = os.path.join(BUILD, self.id, 'run')
-        res, crashes, bad, i, step = [], {}, 0, 0, 150
+        res, crashes, bad, i, step = [], {}, 0, 0, (25 if (cases and cases[0] and cases[0][-1].startswith('launch')) else 150)
         while i < len(cases):
             part = cases[i:i + step]
             r, cr = run_exe_on_cases(self.exes['impl'], part, wd, tag, is_impl=True, per_case_timeout=self.per_case_timeout)
@@ -123,7 +144,9 @@ class C20(Check):
                 crashes[i + k] = v
             bad += sum(1 for o in r if any(l.startswith('!') for l in o))
             i += len(part)
-            if bad > self.MAX_BAD and i < len(cases):
+            # a launch that trips its watchdog costs seconds: give up on a launch stream much earlier
+            limit = 3 if (part and part[-1] and part[-1][-1].startswith('launch')) else self.MAX_BAD
+            if bad > limit and i < len(cases):
                 log('[C20] stream %s: %d crashing/hanging cases in the first %d - remaining %d cases not run' % (tag, bad, i, len(cases) - i))
                 del cases[i:]
                 break
@@ -165,12 +188,14 @@ class C20(Check):
     def launch_cases(self, rng, thorough):
         cases = []
         sizes = [0, 1, 4095, 4096, 4097, 65535, 65536, 65537] + ([1048576, 1048577] if thorough else [])
-        env_sets = [[], [('K', 'v')], [('A', '1'), ('B', ''), ('PATH', '/x:/y'), ('Z=Z', 'q=r')]]
+        env_sets = [[], [('K', 'v')], [('A', '1'), ('B', ''), ('PATH', '/x:/y'), ('Z=Z', 'q=r')],
+                    [('b', '2'), ('PATH', '/x'), ('B', '1'), ('A', '0')]]      # the last one is not given in key order
         argsets = [['zero'], ['zero', 'a b', '', '"q"', '-x', '--y=z'], [], ['zero', 'x' * 300]]
 
-        def one(api, form, streams, code, mode, size, seed, first, strs=(), env=()):
+        def one(api, form, streams, code, mode, size, seed, first, strs=(), env=(), profile=None):
             ops = ['s ' + hx(s) for s in strs] + ['env %s %s' % (hx(k), hx(v)) for k, v in env]
-            ops.append('launch %s %s %d %d %d %d %d %s' % (api, form, streams, code, mode, size, seed, hx(first)))
+            ops.append('launch %s %s %d %d %d %d %d %s%s' % (api, form, streams, code, mode, size, seed, hx(first),
+                                                             ' ' + profile if profile else ''))
             return ops
         # all 8 redirection combinations x forms, small payload
         for streams in range(8):
@@ -196,6 +221,27 @@ class C20(Check):
                 if size >= 1048576 and mode == 3 and streams != 7:
                     continue
                 cases.append(one('open', 'argv', streams, rng.randrange(256), mode, size, rng.randrange(1 << 30), CHILD, ['zero', 'p']))
+        # launch profiles: a second open()/start() on a running Process; descriptor 0 of the parent closed;
+        # an executable that does not exist (with and without PATH lookup)
+        for api, form, streams in (('open', 'argv', 1), ('open', 'cmd', 7), ('open', 'list', 4), ('start', 'argv', 0), ('start', 'cmd', 0)):
+            strs = ['zero', 'p'] if form != 'cmd' else ()
+            cases.append(one(api, form, streams, rng.randrange(256), 1 if streams & 4 else 0, 200 if streams & 4 else 0,
+                             rng.randrange(1 << 30), CHILD + (' p' if form == 'cmd' else ''), strs, rng.choice(env_sets), 'again'))
+        for streams in range(8):
+            for form in (('argv', 'cmd', 'list', 'argv0') if thorough else ('argv', 'cmd')):
+                strs = ['zero', 'p'] if form != 'cmd' else ()
+                mode = rng.choice([1, 2, 3]) if streams & 4 else 0
+                size = rng.choice([1, 300, 70000]) if mode else 0
+                cases.append(one('open', form, streams, rng.randrange(256), mode, size, rng.randrange(1 << 30),
+                                 CHILD + (' p' if form == 'cmd' else ''), strs, rng.choice(env_sets), 'fd0'))
+        for streams in range(8):
+            for exe in ('./no-such-helper', 'no-such-helper-on-the-path'):
+                form = rng.choice(['argv', 'cmd', 'list'])
+                strs = ['zero', 'p'] if form != 'cmd' else ()
+                cases.append(one('open', form, streams, 0, 0, 0, 1, exe + (' p' if form == 'cmd' else ''), strs, rng.choice(env_sets[:3]), 'noexec'))
+        for exe in ('./no-such-helper', 'no-such-helper-on-the-path'):
+            cases.append(one('start', 'argv', 0, 0, 0, 0, 1, exe, ['zero'], [], 'noexec'))
+            cases.append(one('start', 'cmd', 0, 0, 0, 0, 1, exe + ' a b', (), [], 'noexec'))
         # exit codes
         codes = range(256) if thorough else sorted(set([0, 1, 2, 127, 128, 254, 255] + [rng.randrange(256) for _ in range(12)]))
         for code in codes:
@@ -222,6 +268,9 @@ class C20(Check):
         for _ in range(6000 if thorough else 1200):
             cases.append(parse_case(self.rand_table(rng), self.rand_vec(rng, rng.randrange(0, 7))))
         out.append(Stream('args_rand', cases, note='random tables (duplicate/negative/zero characters, empty and missing names, all flag combinations)'))
+        out.append(Stream('args_argc0', [table_ops(t) + ['s ' + hx(x) for x in v] + ['parse0'] for t in (FIXED_TABLE, FIXED_TABLE2)
+                                         for v in ([], ['-a'], ['--', 'x'])],
+                          note='Arguments constructed with argc == 0: read() is false at once and stays false'))
         # command lines
         n = 8 if thorough else 6
         out.append(Stream('split_ex', [['split ' + hx(s)] for s in strings_upto(CMD_ALPHA, n)], exhaustive=True,
@@ -263,6 +312,7 @@ class C20(Check):
         ref = self.run_spec(pcases, tag='spec_glibc')
         bad = 0
         for (t, v), go, ro, pc in zip(vecs, g, ref, pcases):
+            ro = [l for l in ro if not l.startswith('again')]
             ok = len(go) == len(ro) and all(line_matches(a, b) for a, b in zip(go, ro))
             if not ok:
                 bad += 1
